@@ -13,6 +13,12 @@ CHECKS = {
  "C04": dict(cat="exploration", design="§3 C04", technique="bounded exhaustive enumeration of block tuples (visiting schedules) x stores x candidate-set orders",
    text="Every ordered tuple of up to 3 (thorough: 4) overlapping block types x every multiset store of up to 4 UTxOs at one address x optional collateral x every name-to-source-position assignment, through inputs::resolve and then reduce + Compiler::compile; selections must be pairwise disjoint, each block sound with respect to what earlier blocks took, and the emitted input list equal to the union of the selections without duplicates.",
    note="No global completeness (matching) claim; block types and stores limited to the stated alphabets."),
+ "C12": dict(cat="exploration", design="§3 C12", technique="deviation-bounded exhaustive enumeration of grammar derivations and single token edits, each case in an isolated worker",
+   text="tx3.pest is read with pest_meta and, for every rule reachable from `program`, every derivation with <= 2 (thorough: 3) deviations inside that rule is generated in its shortest context; every single token edit (delete, duplicate, swap, 24 replacements, literal stretching) of every example program; 9 recursive shapes escalated to depth 64; reference cycles. Every string is parsed and, if it parses, analysed in a worker process under a 10 s / 4 GiB cap with the case announced beforehand, so a panic, abort or hang is attributed to its input. Exhaustive below the deviation bound; silent about strings needing more deviations.",
+   note="Panic signatures are the enclosing tx3 function (from a backtrace) + normalised message; hang/abort signatures are case family + front-end phase. Timing cap is part of the definition of 'fails to terminate'."),
+ "C19": dict(cat="exploration", design="§3 C19", technique="bounded exhaustive enumeration of erroneous sources (C12 enumeration + error injected at every token boundary of multi-line / multi-byte bases)",
+   text="Every source of the C12 enumeration plus 5 offending tokens injected at every token boundary of 12 multi-line bases (LF / CRLF, tabs, multi-byte comments and strings before the error). Each parse diagnostic's span must lie within the text the diagnostic carries, on char boundaries, and render through miette; each located analysis diagnostic must lie within the input and, for not-in-scope, cover exactly the reported name.",
+   note="Diagnostics with dummy spans are only counted; inputs that crash the front end belong to C12."),
 }
 PENDING = {}
 
